@@ -135,7 +135,8 @@ def shrink_case(ctx, kind, case, budget=60):
                 cand = dict(best)
                 for g in group:
                     cand[g] = best[g][:i] + best[g][i + chunk:]
-                if kind == 'sample' and group == ('wfs',) and not cand['wfs']:
+                if (kind == 'sample' and group == ('wfs',) and not cand['wfs']) or \
+                        (kind == 'code' and not cand['vs']):
                     i += chunk
                     continue
                 budget -= 1
@@ -270,9 +271,26 @@ def _codes(arr):
     return [int(x) for x in np.asarray(arr).tolist()]
 
 
+def _code_history(U, v, amp, off, r):
+    """per function: (outcome on the caller's array, the array afterwards if it was modified else None,
+    outcome of a second conversion of the same array, outcome on a read-only array)"""
+    out = {}
+    for name in ('_voltage_to_uint16_numpy', '_voltage_to_uint16_numba', 'voltage_to_uint16'):
+        fn = getattr(U, name)
+        shared = v.copy()
+        first = outcome(lambda: _codes(fn(shared, amp, off, r)))
+        modified = None if shared.tobytes() == v.tobytes() else [float(x) for x in shared]
+        second = outcome(lambda: _codes(fn(shared, amp, off, r))) if modified is None else first
+        ro = v.copy()
+        ro.flags.writeable = False
+        readonly = outcome(lambda: _codes(fn(ro, amp, off, r)))
+        out[name] = (first, modified, second, readonly)
+    return out
+
+
 def check_code(ctx, cases, label):
     U, P, B, W, TimeType = _imports()
-    lines, impl = [], []
+    lines, impl, hist = [], [], []
     for c in cases:
         amp, off, r = c['amp'], c['off'], c['r']
         v = np.array(c['vs'], dtype=float)
@@ -280,6 +298,7 @@ def check_code(ctx, cases, label):
         i_nb = outcome(lambda: _codes(U._voltage_to_uint16_numba(v.copy(), amp, off, r)))
         i_wr = outcome(lambda: _codes(U.voltage_to_uint16(v.copy(), amp, off, r)))
         impl.append((i_np, i_nb, i_wr))
+        hist.append(_code_history(U, v, amp, off, r))
         args = [fr(amp), fr(off), r, [fr(x) for x in c['vs']]]
         tol = F(0) if c['stream'] == 'exact' else TOL
         lines.append(sx(['c20', 'code', 'np'] + args))
@@ -290,6 +309,7 @@ def check_code(ctx, cases, label):
     ans = core.Lean.run(lines)
     for idx, (c, (i_np, i_nb, i_wr)) in enumerate(zip(cases, impl)):
         a = ans[5 * idx: 5 * idx + 5]
+        fresh = {'_voltage_to_uint16_numpy': i_np, '_voltage_to_uint16_numba': i_nb, 'voltage_to_uint16': i_wr}
         m_np = model_outcome(a[0], lambda x: [int(t) for t in x[1]])
         m_nb = model_outcome(a[1], lambda x: [int(t) for t in x[1]])
         line = lines[5 * idx]
@@ -308,6 +328,27 @@ def check_code(ctx, cases, label):
                 _viol(ctx, '%s(amp=%r, off=%r, resolution=%d) on %r gave %r: %s'
                               % (name, c['amp'], c['off'], c['r'], c['vs'][:12], o, vd),
                               dict(rep, function=name, impl=repr(o), judge=vd))
+                break
+        if bad:
+            continue
+        # call history: the conversion is a function of the voltages.  The outcomes above (fresh copy per
+        # call) were judged; the same voltages must give the same outcome when the caller's array is
+        # converted a second time or is read-only, and the caller's array must not be written to.
+        for name, (first, modified, second, readonly) in hist[idx].items():
+            what = None
+            if modified:
+                what = 'wrote into the caller\'s voltage array (now %s)' % (modified[:12],)
+            elif first != fresh[name]:
+                what = 'gave %r on the caller\'s array but %r on a copy' % (first, fresh[name])
+            elif second != first:
+                what = 'gave %r for the first and %r for the second conversion of the same array' % (first, second)
+            elif readonly != first:
+                what = 'gave %r for a read-only array holding the same voltages (writable: %r)' % (readonly, first)
+            if what:
+                bad = True
+                _viol(ctx, '%s(amp=%r, off=%r, resolution=%d) on %r %s'
+                      % (name, c['amp'], c['off'], c['r'], c['vs'][:12], what),
+                      dict(rep, function=name, history=repr(hist[idx][name])[:600], judge='not-a-function-of-the-voltages'))
                 break
         if bad:
             continue
@@ -357,7 +398,7 @@ def check_code_malformed(ctx):
 # =============================================================================================
 
 DYADIC_RATES = [F(1), F(2), F(1, 2), F(4), F(3, 2), F(5, 4), F(1, 8), F(12), F(3, 4), F(1000)]
-OTHER_RATES = [F(12, 5), F(1, 3), F(1, 10), F(7, 3)]
+OTHER_RATES = [F(12, 5), F(1, 3), F(1, 10), F(7, 3), F(3), F(6), F(7), F(3, 10), F(3), F(9), F(10, 3), F(5), F(7, 10)]
 
 
 def gen_times_cases(rng, n):
@@ -369,7 +410,7 @@ def gen_times_cases(rng, n):
         m = rng.choice([1, 1, 2, 3, 5])
         durs = []
         for _i in range(m):
-            k = rng.randrange(1, 40)
+            k = rng.randrange(1, 70)
             kind = rng.random()
             if kind < 0.6:
                 d = F(k) / sr
@@ -433,19 +474,18 @@ def check_times(ctx, cases):
             _viol(ctx, 'get_sample_times lengths %r, specification round(duration*rate) = %r' % (n_impl, n_mod),
                           dict(rep, impl=repr(n_impl), spec=repr(n_mod)))
             continue
-        # times: the model says k / rate exactly.  For a power-of-two rate every way of computing k/rate in
-        # floats is exact; otherwise the quotient is rounded and 2^-40 relative is allowed.
+        # times: the model says k / rate exactly.  In floats the specification is the correctly rounded quotient
+        # float(k) / float(rate) - one IEEE division - compared bit for bit: a grid point that is one ulp below
+        # k/rate moves a step or marker edge lying on that sample point into the next sample.
         # (a longer array is still "sufficient for the longest waveform": only its entries are checked)
-        srf = fr(float(sr))
-        pow2 = srf.numerator == 1 or (srf.denominator == 1 and srf.numerator & (srf.numerator - 1) == 0)
         model_ok = all(t == F(k) / sr for k, t in enumerate(t_mod))
-
-        def time_ok(k, x):
-            want = F(k) / srf
-            return F(x) == want if pow2 else abs(F(x) - want) <= TOL * max(1, abs(want))
-        if len(t_impl) < len(t_mod) or not model_ok or not all(time_ok(k, x) for k, x in enumerate(t_impl)):
-            _viol(ctx, 'get_sample_times time array is not k/rate: %r' % (t_impl[:8],),
-                          dict(rep, impl=repr(t_impl[:20]), spec=repr([str(x) for x in t_mod[:20]])))
+        off_grid = [k for k, x in enumerate(t_impl) if x != float(k) / float(sr)]
+        if len(t_impl) < len(t_mod) or not model_ok or off_grid:
+            _viol(ctx, 'get_sample_times(durations=%s, rate=%s): sample times %r are not float(k)/float(rate) '
+                       '(e.g. k=%s: %r instead of %r)'
+                  % ([str(F(*d)) for d in c['durs']], sr, off_grid[:8], off_grid[:1],
+                     t_impl[off_grid[0]] if off_grid else None, off_grid[0] / float(sr) if off_grid else None),
+                  dict(rep, impl=repr(t_impl[:24]), off_grid=off_grid[:40], spec=repr([str(x) for x in t_mod[:24]])))
 
 
 # =============================================================================================
@@ -484,7 +524,7 @@ def build_wf(desc):
     from qupulse.expressions import ExpressionScalar
     interp = {'hold': HoldInterpolationStrategy(), 'linear': LinearInterpolationStrategy(),
               'jump': JumpInterpolationStrategy()}
-    dur = TimeType.from_fraction(*desc['dur'])
+    dur = TimeType.from_fraction(*desc['dur']) if desc['dur'] else None     # None: table parts only
     subs = []
     for part in desc['parts']:
         if part[0] == 'const':
@@ -537,8 +577,57 @@ def gen_wf_desc(rng, n_samples: int, sr: F, chans, exact: bool, dev: F = F(0)):
     return {'dur': [dur.numerator, dur.denominator], 'parts': parts}
 
 
-def gen_sample_cases(rng, n):
+EDGE_RATES = [F(3), F(3), F(6), F(7), F(3, 10), F(7, 3), F(9), F(5), F(10, 3), F(7, 10), F(1, 3), F(12, 5)]
+
+
+def gen_edge_cases(rng, n):
+    """sample rates whose period is not a float, with hold / jump steps and marker edges exactly on sample
+    points k/rate - preferably on those k where other ways of computing the grid (k * (1/rate)) are one ulp
+    off.  Voltages are dyadic, amplitudes powers of two: the arithmetic after sampling is exact."""
     cases = []
+    for _ in range(n):
+        sr = rng.choice(EDGE_RATES)
+        n_out = rng.randrange(1, 3)
+        chans = [rng.choice(['A', 'B']) for _i in range(n_out)]
+        marks = [rng.choice(['M', 'N']) for _i in range(rng.randrange(0, 3))]
+        used = sorted({c for c in chans + marks})
+        wfs, seen = [], set()
+        for _w in range(rng.randrange(1, 4)):
+            ns = rng.randrange(6, 49)
+            period = float(1 / sr)
+            sensitive = [k for k in range(1, ns) if k * period != k / float(sr)]
+            parts = []
+            for ch in used:
+                marker = ch in ('M', 'N')
+                pool = sensitive if sensitive and rng.random() < 0.8 else list(range(1, ns))
+                ks = sorted(set(rng.sample(pool, min(len(pool), rng.randrange(1, 5)))))
+                ent = []
+                prev = None
+                for k in [0] + ks + [ns]:
+                    v = rng.choice([0.0, 1.0]) if marker else rng.randrange(-16, 17) / 8
+                    if v == prev:
+                        v = 1.0 - v if marker else v + 0.5
+                    prev = v
+                    # the float grid point itself, float(k)/float(rate): the edge lies exactly on sample k
+                    ent.append([k / float(sr), v, rng.choice(['hold', 'jump'])])
+                parts.append(['table', ch, ent])
+            # the duration of a table waveform is derived from its last entry (TimeType.from_float of
+            # float(ns)/float(rate)); check_sample sends the real waveform's duration to the model
+            d = {'dur': None, 'parts': parts}
+            key = json.dumps(d, sort_keys=True)
+            if key not in seen:
+                seen.add(key)
+                wfs.append(d)
+        cases.append({'sr': [sr.numerator, sr.denominator], 'channels': chans, 'markers': marks,
+                      'amps': [2.0 ** rng.randrange(-2, 3) for _i in chans],
+                      'offs': [rng.randrange(-8, 9) / 8 for _i in chans],
+                      'trafos': [rng.choice([None, None, ['affine', 2.0, 0.25], 'abs']) for _i in chans],
+                      'wfs': wfs, 'stream': 'exact', 'fam': 'edge'})
+    return cases
+
+
+def gen_sample_cases(rng, n):
+    cases = gen_edge_cases(rng, n // 3)
     for _ in range(n):
         exact = rng.random() < 0.7
         sr = rng.choice([F(1), F(2), F(1, 2), F(4), F(1), F(2)]) if exact else rng.choice([F(1), F(2), F(12, 5), F(1, 3)])
@@ -641,7 +730,7 @@ def check_sample(ctx, cases):
         cfgs = [[('none' if ch is None else CHANS.index(ch)), sx_trafo(t), fr(a), fr(of)]
                 for ch, t, a, of in zip(c['channels'], c['trafos'], c['amps'], c['offs'])]
         marks = [('none' if m is None else CHANS.index(m)) for m in c['markers']]
-        wire = [[F(*d['dur']), tab] for d, tab in zip(c['wfs'], tabs)]
+        wire = [[F(int(wf.duration.numerator), int(wf.duration.denominator)), tab] for wf, tab in zip(wfs, tabs)]
         lines.append(sx(['c20', 'sample', sr, fr(GSL_TOL), cfgs, marks, wire]))
         if o[0] == 'ok':
             out = [[['none' if a is None else [fr(x) for x in a] for a in chs],
@@ -673,6 +762,8 @@ def check_sample(ctx, cases):
         m = model_outcome(a, conv)
         ctx.case(line, nontrivial=o[0] == 'ok')
         ctx.count('sample:%s:%s' % (c['stream'], o[0] if o[0] == 'ok' else o[1]))
+        if c.get('fam') == 'edge':
+            ctx.count('sample:steps-and-marker-edges-on-sample-points(rate %s)' % F(*c['sr']))
         for t in c['trafos']:
             ctx.count('sample:trafo:%s' % (t if isinstance(t, str) or t is None else 'affine'))
         for d in c['wfs']:
@@ -1195,7 +1286,9 @@ def run(ctx: core.Ctx):
         'random arrays with power-of-two amplitude (exact) + arbitrary floats (toleranced); get_sample_times: '
         'lists of durations k/rate, off-grid, at and around the 1e-10 tolerance, zero, empty list; '
         '_sample_waveforms: a minimal ProgramEntry subclass on Constant/Table/Function/MultiChannel waveforms '
-        'with None channels, markers, transformations None/affine/abs/square, missing channels and '
+        'with None channels, markers, transformations None/affine/abs/square, hold/jump steps and marker edges exactly on '
+        'sample points k/rate for rates 3, 6, 7, 9, 5, 3/10, 7/10, 7/3, 10/3 (preferring the k where k*(1/rate) != k/rate), '
+        'missing channels and '
         'non-integral lengths as malformed stream; time_windows_to_samples: arrays of 0..40 windows sorted / '
         'reversed / unsorted with equal begins, begins at exact half samples, lengths at whole samples and 1/64 below; '
         'shrink_overlapping_windows: every list of <=3 windows with begin<=4, length<=3 (exhaustive) + random lists up to 40 '
@@ -1213,7 +1306,11 @@ def run(ctx: core.Ctx):
         'numpy.searchsorted on a non-decreasing array returns the index of the first element >= x (modelled, not verified)',
         'windows are non-negative and below 2^63, resolution <= 16 (the uint16 cast is the identity there, proved: '
         'codeOf_eq); negative windows / resolution > 16 are outside the modelled domain',
-        'float division and Fraction->float conversion are correctly rounded (used to compare averages and k/rate)',
+        'float division and Fraction->float conversion are correctly rounded (used to compare averages)',
+        'the float specification of the sample grid is the correctly rounded quotient float(k)/float(rate) (one IEEE '
+        'division), compared bit for bit: a grid point one ulp below k/rate delays a step lying on that sample point',
+        'voltage_to_uint16 is judged as a function of the voltages: caller array unchanged, same outcome for a second '
+        'conversion of the same array and for a read-only array',
     ]
     fp = fingerprints()
     ctx.extra['fingerprints'] = fp
